@@ -20,9 +20,9 @@ package proto
 
 //@ define pa_idx(nodes Nodes, indices Indices, off int) bool = (forall r NodeRefT :: {indices[r]} {has(indices, r)} has(indices, r) ==> off <= indices[r] && indices[r] < off + len(nodes) && nodes[indices[r] - off].Ref == r) && (forall k :: {indices[nodes[k].Ref]} {has(indices, nodes[k].Ref)} 0 <= k && k < len(nodes) ==> has(indices, nodes[k].Ref) && indices[nodes[k].Ref] == off + k)
 //@ define pa_par(nodes Nodes, off int) bool = forall k :: {nodes[k]} 0 <= k && k < len(nodes) ==> (nodes[k].ForkchoiceParent == NONE || (off <= nodes[k].ForkchoiceParent && nodes[k].ForkchoiceParent < off + k)) && (nodes[k].TransitionParent == NONE || (off <= nodes[k].TransitionParent && nodes[k].TransitionParent < off + k))
-//@ define pa_best(nodes Nodes, off int) bool = forall k :: {nodes[k]} 0 <= k && k < len(nodes) ==> (nodes[k].BestChild == NONE || (off <= nodes[k].BestChild && nodes[k].BestChild < off + len(nodes))) && (nodes[k].BestDescendant == NONE || (off <= nodes[k].BestDescendant && nodes[k].BestDescendant < off + len(nodes)))
+//@ define pa_best(nodes Nodes, off int) bool = forall k :: {nodes[k]} 0 <= k && k < len(nodes) ==> (nodes[k].BestChild == NONE || (off <= nodes[k].BestChild && nodes[k].BestChild < off + len(nodes))) && (nodes[k].BestDescendant == NONE || (off <= nodes[k].BestDescendant && nodes[k].BestDescendant < off + len(nodes))) && (nodes[k].BestChild == NONE <==> nodes[k].BestDescendant == NONE)
 //@ define pa_bs(blockSlots BlockSlots, indices Indices) bool = !isnil(blockSlots) && (forall r RootT :: {blockSlots[r]} has(blockSlots, r) ==> has(indices, NodeRef(blockSlots[r], r)))
-//@ define pa_ok(nodes Nodes, indices Indices, off int) bool = pa_idx(nodes, indices, off) && pa_par(nodes, off) && pa_best(nodes, off) && !isnil(indices) && off + len(nodes) < 9223372036854775808
+//@ define pa_ok(nodes Nodes, indices Indices, off int) bool = pa_idx(nodes, indices, off) && pa_par(nodes, off) && pa_best(nodes, off) && !isnil(indices) && len(indices) == len(nodes) && off + len(nodes) < 9223372036854775808
 
 // pa_same: same nodes up to the best-child / best-descendant links
 //@ define pa_same(a Nodes, b Nodes) bool = len(a) == len(b) && (forall k :: {b[k]} 0 <= k && k < len(a) ==> a[k].Ref == b[k].Ref && a[k].TransitionParent == b[k].TransitionParent && a[k].ForkchoiceParent == b[k].ForkchoiceParent && a[k].ParentRoot == b[k].ParentRoot && a[k].JustifiedEpoch == b[k].JustifiedEpoch && a[k].FinalizedEpoch == b[k].FinalizedEpoch && a[k].Weight == b[k].Weight)
@@ -33,6 +33,9 @@ package proto
 
 // viable(node): the specification's filter_block_tree test against the array's checkpoints
 //@ define viable(nj int, nf int, j int, f int) bool = (nj == j || j == 0) && (nf == f || f == 0)
+
+// root_gt(a, b): a is the greater root in the byte-wise (lexicographic) order
+//@ define root_gt(a RootT, b RootT) bool = bytes_cmp(seq(a), seq(b)) > 0
 
 // ---------------------------------------------------------------- small helpers
 
@@ -78,6 +81,9 @@ package proto
 //@   ensures child_desc: err == nil ==> (let p := pr.nodes[parentIndex - pr.indexOffset] in let c := pr.nodes[childIndex - pr.indexOffset] in (p.BestChild == childIndex && parentIndex != childIndex ==> p.BestDescendant == ite(c.BestDescendant == NONE, childIndex, c.BestDescendant)))
 //@   ensures first_viable: err == nil && parentIndex != childIndex ==> (let p0 := old(pr.nodes[parentIndex - pr.indexOffset]) in let c := old(pr.nodes[childIndex - pr.indexOffset]) in let cd := ite(c.BestDescendant == NONE, childIndex, c.BestDescendant) in let cv := viable(old(pr.nodes[cd - pr.indexOffset].JustifiedEpoch), old(pr.nodes[cd - pr.indexOffset].FinalizedEpoch), pr.justifiedEpoch, pr.finalizedEpoch) in (p0.BestChild == NONE ==> (pr.nodes[parentIndex - pr.indexOffset].BestChild == ite(cv, childIndex, NONE))))
 //@   ensures same_child: err == nil && parentIndex != childIndex ==> (let p0 := old(pr.nodes[parentIndex - pr.indexOffset]) in let c := old(pr.nodes[childIndex - pr.indexOffset]) in let cd := ite(c.BestDescendant == NONE, childIndex, c.BestDescendant) in let cv := viable(old(pr.nodes[cd - pr.indexOffset].JustifiedEpoch), old(pr.nodes[cd - pr.indexOffset].FinalizedEpoch), pr.justifiedEpoch, pr.finalizedEpoch) in (p0.BestChild == childIndex ==> (pr.nodes[parentIndex - pr.indexOffset].BestChild == ite(cv, childIndex, NONE))))
+//@   ensures other_viable_child: err == nil && parentIndex != childIndex ==> (let p0 := old(pr.nodes[parentIndex - pr.indexOffset]) in let c := old(pr.nodes[childIndex - pr.indexOffset]) in let cd := ite(c.BestDescendant == NONE, childIndex, c.BestDescendant) in let cv := viable(old(pr.nodes[cd - pr.indexOffset].JustifiedEpoch), old(pr.nodes[cd - pr.indexOffset].FinalizedEpoch), pr.justifiedEpoch, pr.finalizedEpoch) in let b := old(pr.nodes[p0.BestChild - pr.indexOffset]) in let bd := ite(b.BestDescendant == NONE, p0.BestChild, b.BestDescendant) in let bv := viable(old(pr.nodes[bd - pr.indexOffset].JustifiedEpoch), old(pr.nodes[bd - pr.indexOffset].FinalizedEpoch), pr.justifiedEpoch, pr.finalizedEpoch) in (p0.BestChild != NONE && p0.BestChild != childIndex && cv && !bv ==> pr.nodes[parentIndex - pr.indexOffset].BestChild == childIndex))
+//@   ensures other_viable_best: err == nil && parentIndex != childIndex ==> (let p0 := old(pr.nodes[parentIndex - pr.indexOffset]) in let c := old(pr.nodes[childIndex - pr.indexOffset]) in let cd := ite(c.BestDescendant == NONE, childIndex, c.BestDescendant) in let cv := viable(old(pr.nodes[cd - pr.indexOffset].JustifiedEpoch), old(pr.nodes[cd - pr.indexOffset].FinalizedEpoch), pr.justifiedEpoch, pr.finalizedEpoch) in let b := old(pr.nodes[p0.BestChild - pr.indexOffset]) in let bd := ite(b.BestDescendant == NONE, p0.BestChild, b.BestDescendant) in let bv := viable(old(pr.nodes[bd - pr.indexOffset].JustifiedEpoch), old(pr.nodes[bd - pr.indexOffset].FinalizedEpoch), pr.justifiedEpoch, pr.finalizedEpoch) in (p0.BestChild != NONE && p0.BestChild != childIndex && !cv && bv ==> pr.nodes[parentIndex - pr.indexOffset] == p0))
+//@   ensures other_weight: err == nil && parentIndex != childIndex ==> (let p0 := old(pr.nodes[parentIndex - pr.indexOffset]) in let c := old(pr.nodes[childIndex - pr.indexOffset]) in let cd := ite(c.BestDescendant == NONE, childIndex, c.BestDescendant) in let cv := viable(old(pr.nodes[cd - pr.indexOffset].JustifiedEpoch), old(pr.nodes[cd - pr.indexOffset].FinalizedEpoch), pr.justifiedEpoch, pr.finalizedEpoch) in let b := old(pr.nodes[p0.BestChild - pr.indexOffset]) in let bd := ite(b.BestDescendant == NONE, p0.BestChild, b.BestDescendant) in let bv := viable(old(pr.nodes[bd - pr.indexOffset].JustifiedEpoch), old(pr.nodes[bd - pr.indexOffset].FinalizedEpoch), pr.justifiedEpoch, pr.finalizedEpoch) in (p0.BestChild != NONE && p0.BestChild != childIndex && cv && bv ==> pr.nodes[parentIndex - pr.indexOffset].BestChild == ite(c.Weight > b.Weight || (c.Weight == b.Weight && root_gt(c.Ref.Root, b.Ref.Root)), childIndex, p0.BestChild)))
 
 //@ func (pr *ProtoArray) updateConnections() err
 //@   property C09
@@ -118,3 +124,133 @@ package proto
 //@   ensures known: err == nil ==> has(pr.indices, ref)
 //@   ensures head: err == nil ==> (let ai := pr.indices[NodeRef(anchorSlot, anchorRoot)] in let bd := pr.nodes[ai - pr.indexOffset].BestDescendant in let h := pr.nodes[ite(bd == NONE, ai, bd) - pr.indexOffset] in ref == h.Ref && viable(h.JustifiedEpoch, h.FinalizedEpoch, pr.justifiedEpoch, pr.finalizedEpoch))
 //@   ensures nonviable: old(pr.updatedConnections) && has(pr.indices, NodeRef(anchorSlot, anchorRoot)) ==> (let ai := pr.indices[NodeRef(anchorSlot, anchorRoot)] in let bd := pr.nodes[ai - pr.indexOffset].BestDescendant in let h := pr.nodes[ite(bd == NONE, ai, bd) - pr.indexOffset] in (err == nil <==> viable(h.JustifiedEpoch, h.FinalizedEpoch, pr.justifiedEpoch, pr.finalizedEpoch)))
+
+// ---------------------------------------------------------------- insertion
+
+//@ func (pr *ProtoArray) ProcessSlot(parent, slot, justifiedEpoch, finalizedEpoch)
+//@   property C09 C11
+//@   requires pr != nil && pa_ok(pr.nodes, pr.indices, pr.indexOffset) && pa_bs(pr.blockSlots, pr.indices)
+//@   requires room: pr.indexOffset + len(pr.nodes) + slot < 9223372036854775807
+//@   requires domain: has(pr.blockSlots, parent) ==> slot > pr.blockSlots[parent] || has(pr.indices, NodeRef(slot, parent))
+//@   assigns pr.nodes, pr.indices, pr.updatedConnections
+//@   ensures inv: pa_ok(pr.nodes, pr.indices, pr.indexOffset) && pa_bs(pr.blockSlots, pr.indices)
+//@   ensures kept: pa_prefix(old(pr.nodes), pr.nodes)
+//@   ensures added: has(pr.indices, NodeRef(slot, parent))
+//@   ensures grows: forall r NodeRefT :: {pr.indices[r]} old(has(pr.indices, r)) ==> has(pr.indices, r) && pr.indices[r] == old(pr.indices[r])
+//@   loop 1
+//@     invariant pa_ok(pr.nodes, pr.indices, pr.indexOffset) && pa_bs(pr.blockSlots, pr.indices)
+//@     invariant pa_prefix(old(pr.nodes), pr.nodes)
+//@     invariant forall r NodeRefT :: {pr.indices[r]} old(has(pr.indices, r)) ==> has(pr.indices, r) && pr.indices[r] == old(pr.indices[r])
+//@     invariant pr.indexOffset <= parentIndex && parentIndex < pr.indexOffset + len(pr.nodes)
+//@     invariant parentSlot < i && i <= slot && len(pr.nodes) - old(len(pr.nodes)) <= i - parentSlot - 1
+//@     invariant !has(pr.indices, NodeRef(slot, parent))
+//@     decreases slot - i
+
+//@ func (pr *ProtoArray) ProcessBlock(parent, blockRoot, blockSlot, justifiedEpoch, finalizedEpoch) ok
+//@   property C09 C11
+//@   requires pr != nil && pa_ok(pr.nodes, pr.indices, pr.indexOffset) && pa_bs(pr.blockSlots, pr.indices)
+//@   requires room: pr.indexOffset + len(pr.nodes) + blockSlot < 9223372036854775806
+//@   assigns pr.nodes, pr.indices, pr.blockSlots, pr.updatedConnections
+//@   ensures inv: pa_ok(pr.nodes, pr.indices, pr.indexOffset) && pa_bs(pr.blockSlots, pr.indices)
+//@   ensures kept: pa_prefix(old(pr.nodes), pr.nodes)
+//@   ensures known: ok && !old(has(pr.indices, NodeRef(blockSlot, blockRoot))) ==> has(pr.blockSlots, blockRoot)
+//@   ensures added: ok && !old(has(pr.indices, NodeRef(blockSlot, blockRoot))) && !old(has(pr.blockSlots, blockRoot)) ==> has(pr.indices, NodeRef(blockSlot, blockRoot)) && pr.blockSlots[blockRoot] == blockSlot
+//@   ensures orphan: !old(has(pr.indices, NodeRef(blockSlot, blockRoot))) && !old(has(pr.blockSlots, blockRoot)) && !old(has(pr.blockSlots, parent)) ==> !ok && unchanged(pr.nodes) && unchanged(pr.indices) && unchanged(pr.blockSlots)
+
+// ---------------------------------------------------------------- queries
+
+// The only consumer of Indices() is VoteStore.ComputeDeltas, which sizes its
+// result by len(indices) and indexes it by the node index: that needs indices
+// relative to the array (clause "relative").
+//@ func (pr *ProtoArray) Indices() m
+//@   property C09
+//@   requires pr != nil && pa_ok(pr.nodes, pr.indices, pr.indexOffset)
+//@   ensures m == pr.indices
+//@   ensures relative: forall r NodeRefT :: has(pr.indices, r) ==> pr.indices[r] < len(pr.indices)
+
+//@ func (pr *ProtoArray) InSubtree(anchor, root) (unknown, inSubtree)
+//@   property C11
+//@   requires pr != nil && pa_ok(pr.nodes, pr.indices, pr.indexOffset) && pa_bs(pr.blockSlots, pr.indices)
+//@   assigns pr.nodes, pr.updatedConnections
+//@   ensures inv: pa_ok(pr.nodes, pr.indices, pr.indexOffset) && pa_same(old(pr.nodes), pr.nodes)
+//@   ensures same: anchor == root ==> !unknown && inSubtree
+//@   ensures unknown_roots: anchor != root && (!has(pr.blockSlots, anchor) || !has(pr.blockSlots, root)) ==> unknown && !inSubtree
+//@   ensures known_roots: old(pr.updatedConnections) && has(pr.blockSlots, anchor) && has(pr.blockSlots, root) ==> !unknown
+
+//@ func (pr *ProtoArray) inSubtree(anchorIndex, lookupIndex) (unknown, inSubtree)
+//@   property C11
+//@   requires pr != nil && pa_ok(pr.nodes, pr.indices, pr.indexOffset)
+//@   ensures same: anchorIndex == lookupIndex ==> !unknown && inSubtree
+//@   ensures valid: pr.indexOffset <= anchorIndex && anchorIndex < pr.indexOffset + len(pr.nodes) && pr.indexOffset <= lookupIndex && lookupIndex < pr.indexOffset + len(pr.nodes) ==> !unknown
+//@   ensures order: !unknown && inSubtree && anchorIndex != lookupIndex ==> anchorIndex < lookupIndex
+//@   loop 1
+//@     invariant i == NONE || (pr.indexOffset <= i && i < pr.indexOffset + len(pr.nodes))
+//@     decreases ite(i == NONE, 0, i + 1)
+
+//@ func (pr *ProtoArray) CanonicalChain(anchorRoot, anchorSlot) (chain, err)
+//@   property C11
+//@   requires pr != nil && pa_ok(pr.nodes, pr.indices, pr.indexOffset)
+//@   assigns pr.nodes, pr.updatedConnections
+//@   ensures inv: pa_ok(pr.nodes, pr.indices, pr.indexOffset) && pa_same(old(pr.nodes), pr.nodes)
+//@   ensures unknown: !has(pr.indices, NodeRef(anchorSlot, anchorRoot)) ==> err != nil
+//@   loop 1
+//@     invariant index == NONE || index < pr.indexOffset + len(pr.nodes)
+//@     invariant pa_ok(pr.nodes, pr.indices, pr.indexOffset) && pa_same(old(pr.nodes), pr.nodes)
+//@     decreases ite(index == NONE, 0, index + 1)
+
+//@ func (pr *ProtoArray) ClosestToSlot(anchor, slot) (closest, err)
+//@   property C11
+//@   requires pr != nil && pa_ok(pr.nodes, pr.indices, pr.indexOffset) && pa_bs(pr.blockSlots, pr.indices)
+//@   ensures unknown: !has(pr.indices, NodeRef(slot, anchor)) && !has(pr.blockSlots, anchor) ==> err != nil
+//@   ensures exact: has(pr.indices, NodeRef(slot, anchor)) ==> err == nil && closest == NodeRef(slot, anchor)
+//@   ensures before: !has(pr.indices, NodeRef(slot, anchor)) && has(pr.blockSlots, anchor) && pr.blockSlots[anchor] > slot ==> err != nil
+//@   ensures found: err == nil ==> has(pr.indices, closest) && closest.Root == anchor && closest.Slot <= slot
+//@   loop 1
+//@     invariant has(pr.indices, min) && min.Root == anchor && pivot.Root == anchor && max.Root == anchor && min.Slot < max.Slot && max.Slot <= slot
+//@     decreases max.Slot - min.Slot
+
+//@ func (pr *ProtoArray) CanonAtSlot(anchor, slot, withBlock) (at, err)
+//@   property C11
+//@   requires pr != nil && pa_ok(pr.nodes, pr.indices, pr.indexOffset) && pa_bs(pr.blockSlots, pr.indices)
+//@   assigns pr.nodes, pr.updatedConnections
+//@   ensures inv: pa_ok(pr.nodes, pr.indices, pr.indexOffset) && pa_same(old(pr.nodes), pr.nodes)
+//@   ensures unknown: !has(pr.blockSlots, anchor) ==> err != nil
+//@   ensures before: has(pr.blockSlots, anchor) && pr.blockSlots[anchor] > slot ==> err != nil
+//@   loop 1
+//@     invariant index == NONE || index < pr.indexOffset + len(pr.nodes)
+//@     invariant pa_ok(pr.nodes, pr.indices, pr.indexOffset) && pa_same(old(pr.nodes), pr.nodes)
+//@     decreases ite(index == NONE, 0, index + 1)
+
+//@ func (pr *ProtoArray) Search(anchor, parentRoot, slot) (nonCanon, canon, err)
+//@   property C11
+//@   requires pr != nil && pa_ok(pr.nodes, pr.indices, pr.indexOffset)
+//@   assigns pr.nodes, pr.updatedConnections
+//@   ensures inv: pa_ok(pr.nodes, pr.indices, pr.indexOffset) && pa_same(old(pr.nodes), pr.nodes)
+//@   ensures unknown: !has(pr.indices, anchor) ==> err != nil
+//@   loop 1
+//@     invariant 0 <= i && i <= len(pr.nodes)
+//@     invariant pa_ok(pr.nodes, pr.indices, pr.indexOffset) && pa_same(old(pr.nodes), pr.nodes)
+//@     decreases len(pr.nodes) - i
+
+// ---------------------------------------------------------------- pruning
+
+// The sink is an interface: it may fail at any call and writes nothing of the array.
+//@ func (s NodeSink) OnPrunedNode(ctx, ref, canonical) err
+//@   trusted
+
+// Pruning to an anchor keeps the array well-formed.  The current OnPrune does
+// not (see /verif/known_findings.json: the cursor never advances, stale index
+// entries and parent links below indexOffset are left behind); its loops are
+// therefore not annotated and panic obligations are off for this function: what
+// is checked is the no-op paths and, as known findings, the representation
+// invariant after a real prune.
+//@ func (pr *ProtoArray) OnPrune(ctx, anchorRoot, anchorSlot) err
+//@   property C10
+//@   panics off
+//@   requires pr != nil && pa_ok(pr.nodes, pr.indices, pr.indexOffset) && pa_bs(pr.blockSlots, pr.indices)
+//@   assigns pr.nodes, pr.indices, pr.blockSlots, pr.indexOffset, pr.updatedConnections
+//@   ensures unknown_anchor: !old(has(pr.indices, NodeRef(anchorSlot, anchorRoot))) ==> err == nil && unchanged(pr.nodes) && unchanged(pr.indices) && unchanged(pr.blockSlots) && unchanged(pr.indexOffset)
+//@   ensures at_anchor: old(has(pr.indices, NodeRef(anchorSlot, anchorRoot))) && old(pr.indices[NodeRef(anchorSlot, anchorRoot)]) == old(pr.indexOffset) ==> err == nil && unchanged(pr.nodes) && unchanged(pr.indices) && unchanged(pr.blockSlots) && unchanged(pr.indexOffset)
+//@   ensures inv_idx: pa_idx(pr.nodes, pr.indices, pr.indexOffset)
+//@   ensures inv_par: pa_par(pr.nodes, pr.indexOffset)
+//@   ensures inv_size: len(pr.indices) == len(pr.nodes)
